@@ -2,8 +2,8 @@
 
 Domain : for every language, every expression the language module passes to find_all (header) and starts_with
          (follow-up) - captured by wrapping scope_utils.find_all / starts_with while calling extract_headers - compiled
-         with the real nfa_to_dfa. Breadth-first over all reachable configurations (DFA state, nesting-depth class
-         of every Balanced predicate in {0,1,2,>=3}) by feeding REAL Token objects to Pattern.consume; every
+         with the real nfa_to_dfa. Breadth-first over all reachable configurations (DFA state, abstract state of every
+         stateful predicate: nesting-depth class in {0,1,2,>=3} and every other attribute such as 'satisfied') by feeding REAL Token objects to Pattern.consume; every
          configuration keeps its shortest witness. Token classes = token kind x every value some predicate of that
          language distinguishes (+ one other value per kind).
 Oracle : in every reachable configuration and for every token class, (a) Pattern.consume does not raise the ambiguity
@@ -20,8 +20,8 @@ from vf.common import call_sut
 ID = "C15"
 LEVEL = "exploration"
 RULE = (
-    "complete breadth-first exploration per (language, expression): configurations = (DFA state, depth class of each "
-    "Balanced predicate in {0,1,2,>=3}); each configuration x each token class is one evaluation (the witness token "
+    "complete breadth-first exploration per (language, expression): configurations = (DFA state, abstract state of "
+    "each stateful predicate: depth class in {0,1,2,>=3} plus all other attributes); each configuration x each token class is one evaluation (the witness token "
     "sequence is replayed through a fresh Pattern); non-trivial = configuration with some nesting depth > 0; "
     "distinct = distinct (language, expression, configuration, token class), visited once"
 )
@@ -162,13 +162,27 @@ def _replay(dfa, witness):
     return p
 
 
+def _pstate(obj, lvl=0):
+    """Abstract state of a (stateful) predicate: every attribute, recursively; counters are capped at 3."""
+    if isinstance(obj, bool) or obj is None or isinstance(obj, str):
+        return obj
+    if isinstance(obj, int):
+        return min(obj, 3) if obj >= 0 else -1
+    if hasattr(obj, "__dict__") and lvl < 4:
+        return (type(obj).__name__, tuple(sorted((k, _pstate(v, lvl + 1)) for k, v in obj.__dict__.items())))
+    return type(obj).__name__
+
+
 def _config(p, index):
-    depths = []
+    """(DFA state, abstract state of every predicate copy the pattern holds). depths[] is kept for reporting."""
+    states, depths = [], []
     for pid in sorted(p.predicate_map):
-        d = getattr(p.predicate_map[pid], "depth", None)
+        pred = p.predicate_map[pid]
+        states.append(_pstate(pred))
+        d = getattr(pred, "depth", None)
         if d is not None:
             depths.append(min(d, 3))
-    return (index[id(p.state)], tuple(depths))
+    return (index[id(p.state)], tuple(depths), tuple(states))
 
 
 def _count_accepting(p, tok):
